@@ -300,6 +300,38 @@ pub fn c13(log: &mut Log, seed: u64, tier: &str) {
                                   "n": n, "k": 1, "cells": cells, "maxFan": 16, "maxKeyLen": 8, "live": jn(live), "peak": jn(peak), "allocs": jn(allocs)}));
                 }
             }
+            // a seventh family: unsorted input - one high key is accepted, then a long run of pairwise
+            // different keys is refused as out of order and the caller carries on after each refusal
+            for &n in &ns {
+                if n > 1_000_000 {
+                    continue;
+                }
+                const DIG: &[u8] = b"0123456789ABCDEFGHIJKLMNOPQRSTUV";
+                fst::raw::verif::set_geometry(geo);
+                let snap = alloc::begin();
+                let mut b = Builder::new(io::sink()).unwrap();
+                let cells = { let (r, c) = fst::raw::verif::last_geometry(); let _ = cells; r * c };
+                if set { b.add(b"zzzzzzzz").unwrap() } else { b.insert(b"zzzzzzzz", 7).unwrap() };
+                let mut key = *b"key:0000";
+                let mut refused = 0usize;
+                for i in 0..n {
+                    let mut x = i;
+                    for d in (4..8).rev() {
+                        key[d] = DIG[x % 32];
+                        x /= 32;
+                    }
+                    let r = if set { b.add(&key) } else { b.insert(&key, i as u64) };
+                    if r.is_err() {
+                        refused += 1;
+                    }
+                }
+                let (live, peak, allocs) = alloc::read(&snap);
+                b.finish().unwrap();
+                fst::raw::verif::set_geometry(None);
+                let _ = refused;
+                log.ev(json!({"ev": "Mem", "what": "build", "scenario": format!("build-refused-{}-{}", if set { "set" } else { "map" }, gname),
+                              "n": n, "k": 1, "cells": cells, "maxFan": 2, "maxKeyLen": 8, "live": jn(live), "peak": jn(peak), "allocs": jn(allocs)}));
+            }
             // a fourth family (maps): fan-out 32 at every level and strictly decreasing values, so
             // every insert pushes an output difference down into long-lived nodes near the root
             if !set {
